@@ -1041,29 +1041,30 @@ static int parse_container(struct scanner_s *scanner, cif_container_tp *containe
             case FRAME_HEAD:
                 frame = NULL;
 
+                /* whether save frames are allowed here is a matter of syntax: it is checked with or without a target CIF */
+                if (scanner->max_frame_depth == 0) {
+                    /* save frames are not permitted */
+                    result = scanner->error_callback(CIF_FRAME_NOT_ALLOWED, scanner->line,
+                         scanner->column - TVALUE_LENGTH(scanner), TVALUE_START(scanner),
+                         TVALUE_LENGTH(scanner), scanner->user_data);
+                    /* recover, if so directed, by acting as if max_frame_depth were 1 */
+                    if ((result != CIF_OK) || !is_block) {
+                        goto container_end;
+                    }
+                } else if ((scanner->max_frame_depth == 1) && !is_block) {
+                    /* nested save frames are not permitted */
+                    result = scanner->error_callback(CIF_NO_FRAME_TERM, scanner->line,
+                         scanner->column - TVALUE_LENGTH(scanner), TVALUE_START(scanner),
+                         TVALUE_LENGTH(scanner), scanner->user_data);
+                    /* recover, if so directed, by assuming the missing terminator */
+                    /* do not consume the token */
+                    goto container_end;
+                }
+
                 if ((container == NULL) || (scanner->skip_depth > 0)) {
                     result = CIF_OK;
                 } else { 
                     UChar saved = *(token_value + token_length);
-
-                    if (scanner->max_frame_depth == 0) {
-                        /* save frames are not permitted */
-                        result = scanner->error_callback(CIF_FRAME_NOT_ALLOWED, scanner->line,
-                             scanner->column - TVALUE_LENGTH(scanner), TVALUE_START(scanner),
-                             TVALUE_LENGTH(scanner), scanner->user_data);
-                        /* recover, if so directed, by acting as if max_frame_depth were 1 */
-                        if ((result != CIF_OK) || !is_block) {
-                            goto container_end;
-                        }
-                    } else if ((scanner->max_frame_depth == 1) && !is_block) {
-                        /* nested save frames are not permitted */
-                        result = scanner->error_callback(CIF_NO_FRAME_TERM, scanner->line,
-                             scanner->column - TVALUE_LENGTH(scanner), TVALUE_START(scanner),
-                             TVALUE_LENGTH(scanner), scanner->user_data);
-                        /* recover, if so directed, by assuming the missing terminator */
-                        /* do not consume the token */
-                        goto container_end;
-                    }
 
                     /* insert a string terminator into the input buffer, after the current token */
                     *(token_value + token_length) = 0;
